@@ -165,7 +165,8 @@ def run_table(spec, b, client, w):
 def run_large(acc, tier):
     """tables far larger than the small scope (the number of requests of a
     fetch must not matter): 1 column x 800 rows and 3 x 300, by GETNEXT and
-    by GETBULK with bulk size 1 and 10"""
+    by GETBULK with bulk sizes 1, 10, 33 and 200 (answers with far more than
+    32 bindings; the reference agent sends at most 60 repetitions)"""
     client, _ = world.make_client(creds(), lambda p: b"")
     T = TABLES[0]
     ENTRY = T + (1,)
@@ -175,7 +176,7 @@ def run_large(acc, tier):
             for r in range(1, nrows + 1):
                 db[ENTRY + (c, r)] = ("int", c * 100000 + r)
         want = expected_rows(db, ENTRY)
-        for variant, bulk in (("table", None), ("bulktable", 1), ("bulktable", 10)):
+        for variant, bulk in (("table", None), ("bulktable", 1), ("bulktable", 10), ("bulktable", 33), ("bulktable", 200)):
             ag = ragent.Agent(db)
             client.sender.handle = ag.handle
             client.sender.calls = []
